@@ -1,6 +1,6 @@
 SPECIFICATION TSpec
 CONSTANTS
-  Deviations = {"FreeUnmapsFirstPageOnly", "MirrorKeyedByVAddrOnly", "RemapLeaksOldPages", "RemapRecordsGivenDeviceID"}
+  Deviations = {"FreeUnmapsFirstPageOnly", "MirrorKeyedByVAddrOnly", "RemapLeaksOldPages", "RemapRecordsGivenDeviceID", "FreedBufferSweepPanics"}
 INVARIANTS P_LivePagesDisjoint P_InsideRecordedDevice P_VirtualBuffersDisjoint P_TableAgreesWithAllocator P_ReusableExactly P_NoCrashWithinCapacity Aligned
 CONSTRAINT Mark
 POSTCONDITION Accepted
